@@ -118,7 +118,8 @@ def make_scene(rng, name, tier, force=None):
     init = init / init.sum(0, keepdims=True)
     if blur == 0.0 and (rng.random() < 0.6 or force):
         # the true partition as a hard mask: boolean or integer typed
-        init = (init > 0.5) if rng.random() < 0.5 else (init > 0.5).astype(np.int64)
+        as_bool = (rng.random() < 0.5) if force in (None, True) else (force == 'bool')
+        init = (init > 0.5) if as_bool else (init > 0.5).astype(np.int64)
     if name in mm.INTEGRATION:
         init = np.broadcast_to(init, (F, K, N)).copy()
     iters = int(rng.integers(1, 21)) if tier == 'thorough' else int(rng.choice([1, 2, 3, 5, 10, 20]))
@@ -254,8 +255,8 @@ def cases(rng, tier):
     n = 56 if tier == 'quick' else 560
     out = [make(rng, tier, mm.MODELS[i % 7]) for i in range(n)]
     # every model once (thorough: 5 times) from the hard true partition given as a boolean / integer mask, one iteration
-    for i in range(7 if tier == 'quick' else 35):
-        out.append(make(rng, tier, mm.MODELS[i % 7], force=True))
+    for i in range(14 if tier == 'quick' else 42):
+        out.append(make(rng, tier, mm.MODELS[i % 7], force=['bool', 'int'][(i // 7) % 2]))
     return out
 
 
